@@ -58,6 +58,22 @@ def functions():
 REF = []
 
 
+def prelude():
+    """calls of the same analyses on another system, with other (mostly larger) parameters"""
+    import mdtraj as md
+    u = md.load("/repo/tests/data/1bpi.pdb")
+    u.unitcell_vectors = np.tile(np.diag([9.0, 8.0, 7.5]).astype(np.float32), (u.n_frames, 1, 1))
+    n = u.n_atoms
+    md.shrake_rupley(u, n_sphere_points=960); md.shrake_rupley(u, n_sphere_points=333, mode="residue", probe_radius=0.2)
+    md.compute_neighbors(u, 0.9, np.arange(50)); md.compute_neighborlist(u, 0.8)
+    md.compute_dssp(u); md.kabsch_sander(u); md.baker_hubbard(u); md.wernet_nilsson(u)
+    md.rmsd(md.Trajectory(u.xyz.copy(), u.topology), u, 0); md.Trajectory(u.xyz.copy(), u.topology).superpose(u, 0)
+    md.compute_distances(u, [[i, n - 1 - i] for i in range(100)]); md.compute_displacements(u, [[1, 2], [n - 1, 0]])
+    md.compute_angles(u, [[i, i + 1, i + 2] for i in range(60)]); md.compute_dihedrals(u, [[i, i + 1, i + 2, i + 3] for i in range(60)])
+    md.compute_phi(u); md.compute_chi1(u); md.compute_contacts(u, "all", scheme="closest"); md.compute_contacts(u, "all", scheme="ca")
+    md.compute_rg(u); md.compute_drid(u); md.compute_center_of_mass(u); md.compute_gyration_tensor(u); md.compute_inertia_tensor(u); md.asphericity(u)
+
+
 def main(out):
     import warnings
     warnings.simplefilter("ignore")
@@ -70,6 +86,9 @@ def main(out):
     t.unitcell_vectors = np.tile(np.diag([6.0, 6.5, 7.0]).astype(np.float32), (t.n_frames, 1, 1))
     REF.append(md.Trajectory(t.xyz[4:5].copy(), t.topology))
     perm = [3, 7, 0, 8, 1, 5, 2, 6, 4]
+    import os
+    if os.environ.get("HISTORY") == "1":
+        prelude()
     res = {}
     for name, f in functions().items():
         if f is None:
